@@ -171,6 +171,28 @@ impl<SE: crate::extensions::ShellExtensions> crate::Shell<SE> {
             .await
     }
 
+    /// Executes the given string as text nested in the currently executing command (as
+    /// `eval` does): its lines are numbered onwards from the line of that command, however
+    /// the enclosing program was delivered to the shell.
+    ///
+    /// # Arguments
+    ///
+    /// * `command` - The command to execute.
+    /// * `source_info` - Information about the source of the command text.
+    /// * `params` - Execution parameters.
+    pub async fn run_nested_string<S: Into<String>>(
+        &mut self,
+        command: S,
+        source_info: &crate::SourceInfo,
+        params: &ExecutionParameters,
+    ) -> Result<ExecutionResult, error::Error> {
+        let delta = self.call_stack.nested_text_line_delta();
+        self.call_stack.increment_current_line_offset(delta);
+        let result = self.run_string(command, source_info, params).await;
+        self.call_stack.decrement_current_line_offset(delta);
+        result
+    }
+
     /// Executes the given command, provided to a shell executable on the command
     /// line (i.e., via `-c`).
     ///
